@@ -93,6 +93,20 @@ def build_msg(desc: str) -> bytes:
     return gen.rfc_header(1, 20 + len(body), flags, cmd, app, hbh, e2e) + body
 
 
+def dwa_origin_state_id(wire: bytes):
+    """(Result-Code, Origin-State-Id) of a transmitted Device-Watchdog-Answer, `None` for any other message."""
+    h = gen.rfc_parse_header(wire)
+    if h[3] != 280 or h[2] & 0x80:
+        return None
+    rc, osi = "-", "-"
+    for c, v, f, data in gen.rfc_parse_avps(wire[20:h[1]]):
+        if (c, v) == (268, 0):
+            rc = int.from_bytes(data, "big")
+        elif (c, v) == (278, 0):
+            osi = int.from_bytes(data, "big")
+    return rc, osi
+
+
 def describe(wire: bytes) -> str:
     """Abstract of a message the node wrote: cmd R hbh e2e app rc oh fa flags."""
     h = gen.rfc_parse_header(wire)
@@ -493,6 +507,10 @@ class Sim:
             frames = split_frames(s.sent[done:])
             for f in frames:
                 self.obs.append(f"OUT {self.cname(c)} {describe(f)}")
+                osi = dwa_origin_state_id(f)
+                if osi is not None:
+                    # (oracle only: the Origin-State-Id the watchdog answer carries, next to the node's own)
+                    self.obs.append(f"DWAOSI {self.cname(c)} rc={osi[0]} osi={osi[1]} node={getattr(self.node, 'state_id', '-')}")
                 done += len(f)
             self.flushed[s] = done
 
